@@ -147,10 +147,293 @@ theorem xflush_stream (caps : TermPen.Caps) (n : Nat) (cache : Pen) (reqs : List
 
 /-! ### `tickit_utf8_put` is UTF-8 -/
 
-theorem seqlen_src (cp : Int) : ((Utf8.seqlen cp : Nat) : Int) = Tickit.Gen.Width.tickit_utf8_seqlen cp := by
-  unfold Utf8.seqlen Tickit.Gen.Width.tickit_utf8_seqlen
+theorem seqlen_src (cp : Int) : ((Tickit.RB.Utf8.seqlen cp : Nat) : Int) = Tickit.Gen.Width.tickit_utf8_seqlen cp := by
+  unfold Tickit.RB.Utf8.seqlen Tickit.Gen.Width.tickit_utf8_seqlen
   simp only [decide_eq_true_eq]
   repeat' split
   all_goals first | rfl | omega
+
+theorem seqlen_cases (cp : Nat) :
+    (cp < 0x80 ∧ Tickit.RB.Utf8.seqlen cp = 1) ∨ (0x80 ≤ cp ∧ cp < 0x800 ∧ Tickit.RB.Utf8.seqlen cp = 2) ∨
+    (0x800 ≤ cp ∧ cp < 0x10000 ∧ Tickit.RB.Utf8.seqlen cp = 3) ∨
+    (0x10000 ≤ cp ∧ cp < 0x200000 ∧ Tickit.RB.Utf8.seqlen cp = 4) ∨ 0x200000 ≤ cp := by
+  unfold Tickit.RB.Utf8.seqlen
+  repeat' split
+  all_goals omega
+
+/-- `tickit_utf8_put` writes the UTF-8 form of the Unicode Standard (every code point that has one, and the four-byte
+    pattern beyond U+10FFFF). -/
+theorem put_eq_stdUtf8 (cp : Nat) (h : cp < 0x200000) : Tickit.RB.Utf8.put cp = stdUtf8 cp := by
+  rcases seqlen_cases cp with ⟨h1, hs⟩ | ⟨h1, h2, hs⟩ | ⟨h1, h2, hs⟩ | ⟨h1, h2, hs⟩ | h1
+  · have t : Tickit.RB.Utf8.putTail (1 - 1) cp [] = [] := rfl
+    have l : cp / 64 ^ (1 - 1) % 128 = cp := by simp; omega
+    unfold Tickit.RB.Utf8.put stdUtf8
+    simp only [hs, if_pos h1, t, l]
+  · have t : Tickit.RB.Utf8.putTail (2 - 1) cp [] = [UInt8.ofNat (0x80 + cp % 64)] := rfl
+    have l : cp / 64 ^ (2 - 1) % 32 = cp / 64 := by simp; omega
+    have n1 : ¬ cp < 0x80 := by omega
+    unfold Tickit.RB.Utf8.put stdUtf8
+    simp only [hs, if_neg n1, if_pos h2, t, l]
+  · have t : Tickit.RB.Utf8.putTail (3 - 1) cp [] =
+        [UInt8.ofNat (0x80 + cp / 64 % 64), UInt8.ofNat (0x80 + cp % 64)] := rfl
+    have l : cp / 64 ^ (3 - 1) % 16 = cp / 4096 := by simp; omega
+    have n1 : ¬ cp < 0x80 := by omega
+    have n2 : ¬ cp < 0x800 := by omega
+    unfold Tickit.RB.Utf8.put stdUtf8
+    simp only [hs, if_neg n1, if_neg n2, if_pos h2, t, l]
+  · have t : Tickit.RB.Utf8.putTail (4 - 1) cp [] =
+        [UInt8.ofNat (0x80 + cp / 64 / 64 % 64), UInt8.ofNat (0x80 + cp / 64 % 64), UInt8.ofNat (0x80 + cp % 64)] := rfl
+    have l : cp / 64 ^ (4 - 1) % 8 = cp / 262144 % 8 := by simp
+    have e1 : cp / 64 / 64 % 64 = cp / 4096 % 64 := by omega
+    have n1 : ¬ cp < 0x80 := by omega
+    have n2 : ¬ cp < 0x800 := by omega
+    have n3 : ¬ cp < 0x10000 := by omega
+    unfold Tickit.RB.Utf8.put stdUtf8
+    simp only [hs, if_neg n1, if_neg n2, if_neg n3, t, l, e1]
+  · omega
+
+theorem stdUtf8_length_ne (cp : Nat) : (stdUtf8 cp).length ≠ 0 := by
+  unfold stdUtf8
+  split
+  · simp
+  · split
+    · simp
+    · split <;> simp
+
+/-! ### The library's own decoder (`next_utf8`) reads the UTF-8 form back -/
+
+theorem toNat_ofNat_lt (x : Nat) (h : x < 256) : (UInt8.ofNat x).toNat = x := by
+  simp; omega
+
+theorem byteAt_cons0 (b : UInt8) (r : List UInt8) : Tickit.RB.Utf8.byteAt (b :: r) 0 = b.toNat := rfl
+
+theorem byteAt_cons_succ (b : UInt8) (r : List UInt8) (i : Nat) :
+    Tickit.RB.Utf8.byteAt (b :: r) (i + 1) = Tickit.RB.Utf8.byteAt r i := by
+  simp [Tickit.RB.Utf8.byteAt, List.getD]
+
+theorem nextUtf8_1 (x : Nat) (hx : 0 < x ∧ x < 0x80) :
+    Tickit.RB.Utf8.nextUtf8 [UInt8.ofNat x] 0 (some 1) = some ⟨1, x⟩ := by
+  have hx' := toNat_ofNat_lt x (by omega)
+  unfold Tickit.RB.Utf8.nextUtf8
+  simp only [byteAt_cons0, hx']
+  repeat' split
+  all_goals first | (exfalso; omega) | skip
+  all_goals simp_all
+
+theorem nextUtf8_2 (x y : Nat) (hx : 0xc2 ≤ x ∧ x ≤ 0xdf) (hy : 0x80 ≤ y ∧ y ≤ 0xbf) :
+    Tickit.RB.Utf8.nextUtf8 [UInt8.ofNat x, UInt8.ofNat y] 0 (some 2) = some ⟨2, (x - 0xc0) * 64 + (y - 0x80)⟩ := by
+  have hx' := toNat_ofNat_lt x (by omega)
+  have hy' := toNat_ofNat_lt y (by omega)
+  unfold Tickit.RB.Utf8.nextUtf8
+  simp only [byteAt_cons0, hx']
+  have : Tickit.RB.Utf8.contBytes [UInt8.ofNat x, UInt8.ofNat y] (2 - 1) (0 + 1) (x % 32) =
+      some ((x - 0xc0) * 64 + (y - 0x80)) := by
+    show Tickit.RB.Utf8.contBytes [UInt8.ofNat x, UInt8.ofNat y] 1 1 (x % 32) = _
+    unfold Tickit.RB.Utf8.contBytes
+    simp only [byteAt_cons_succ, byteAt_cons0, hy']
+    rw [if_neg (by omega)]
+    unfold Tickit.RB.Utf8.contBytes
+    exact congrArg some (by omega)
+  repeat' split
+  all_goals first | (exfalso; omega) | skip
+  all_goals simp_all
+
+theorem nextUtf8_3 (x y z : Nat) (hx : 0xe0 ≤ x ∧ x ≤ 0xef) (hy : 0x80 ≤ y ∧ y ≤ 0xbf) (hz : 0x80 ≤ z ∧ z ≤ 0xbf) :
+    Tickit.RB.Utf8.nextUtf8 [UInt8.ofNat x, UInt8.ofNat y, UInt8.ofNat z] 0 (some 3) =
+      some ⟨3, ((x - 0xe0) * 64 + (y - 0x80)) * 64 + (z - 0x80)⟩ := by
+  have hx' := toNat_ofNat_lt x (by omega)
+  have hy' := toNat_ofNat_lt y (by omega)
+  have hz' := toNat_ofNat_lt z (by omega)
+  unfold Tickit.RB.Utf8.nextUtf8
+  simp only [byteAt_cons0, hx']
+  have : Tickit.RB.Utf8.contBytes [UInt8.ofNat x, UInt8.ofNat y, UInt8.ofNat z] (3 - 1) (0 + 1) (x % 16) =
+      some (((x - 0xe0) * 64 + (y - 0x80)) * 64 + (z - 0x80)) := by
+    show Tickit.RB.Utf8.contBytes [UInt8.ofNat x, UInt8.ofNat y, UInt8.ofNat z] 2 1 (x % 16) = _
+    unfold Tickit.RB.Utf8.contBytes
+    simp only [byteAt_cons_succ, byteAt_cons0, hy']
+    rw [if_neg (by omega)]
+    unfold Tickit.RB.Utf8.contBytes
+    simp only [byteAt_cons_succ, byteAt_cons0, hz']
+    rw [if_neg (by omega)]
+    unfold Tickit.RB.Utf8.contBytes
+    exact congrArg some (by omega)
+  repeat' split
+  all_goals first | (exfalso; omega) | skip
+  all_goals simp_all
+
+theorem nextUtf8_4 (x y z w : Nat) (hx : 0xf0 ≤ x ∧ x ≤ 0xf7) (hy : 0x80 ≤ y ∧ y ≤ 0xbf) (hz : 0x80 ≤ z ∧ z ≤ 0xbf)
+    (hw : 0x80 ≤ w ∧ w ≤ 0xbf) :
+    Tickit.RB.Utf8.nextUtf8 [UInt8.ofNat x, UInt8.ofNat y, UInt8.ofNat z, UInt8.ofNat w] 0 (some 4) =
+      some ⟨4, (((x - 0xf0) * 64 + (y - 0x80)) * 64 + (z - 0x80)) * 64 + (w - 0x80)⟩ := by
+  have hx' := toNat_ofNat_lt x (by omega)
+  have hy' := toNat_ofNat_lt y (by omega)
+  have hz' := toNat_ofNat_lt z (by omega)
+  have hw' := toNat_ofNat_lt w (by omega)
+  unfold Tickit.RB.Utf8.nextUtf8
+  simp only [byteAt_cons0, hx']
+  have : Tickit.RB.Utf8.contBytes [UInt8.ofNat x, UInt8.ofNat y, UInt8.ofNat z, UInt8.ofNat w] (4 - 1) (0 + 1) (x % 8) =
+      some ((((x - 0xf0) * 64 + (y - 0x80)) * 64 + (z - 0x80)) * 64 + (w - 0x80)) := by
+    show Tickit.RB.Utf8.contBytes [UInt8.ofNat x, UInt8.ofNat y, UInt8.ofNat z, UInt8.ofNat w] 3 1 (x % 8) = _
+    unfold Tickit.RB.Utf8.contBytes
+    simp only [byteAt_cons_succ, byteAt_cons0, hy']
+    rw [if_neg (by omega)]
+    unfold Tickit.RB.Utf8.contBytes
+    simp only [byteAt_cons_succ, byteAt_cons0, hz']
+    rw [if_neg (by omega)]
+    unfold Tickit.RB.Utf8.contBytes
+    simp only [byteAt_cons_succ, byteAt_cons0, hw']
+    rw [if_neg (by omega)]
+    unfold Tickit.RB.Utf8.contBytes
+    exact congrArg some (by omega)
+  repeat' split
+  all_goals first | (exfalso; omega) | skip
+  all_goals simp_all
+
+/-- `next_utf8` reads the UTF-8 form of every code point `1 … 0x1FFFFF` back as that code point, consuming all of it. -/
+theorem nextUtf8_stdUtf8 (cp : Nat) (h0 : 0 < cp) (h : cp < 0x200000) :
+    Tickit.RB.Utf8.nextUtf8 (stdUtf8 cp) 0 (some (stdUtf8 cp).length) = some ⟨(stdUtf8 cp).length, cp⟩ := by
+  unfold stdUtf8
+  by_cases c1 : cp < 0x80
+  · simp only [if_pos c1, List.length_cons, List.length_nil]
+    exact nextUtf8_1 cp ⟨h0, c1⟩
+  · by_cases c2 : cp < 0x800
+    · simp only [if_neg c1, if_pos c2, List.length_cons, List.length_nil]
+      rw [nextUtf8_2 _ _ (by omega) (by omega)]
+      exact congrArg (fun v => some (Tickit.RB.Utf8.Dec.mk 2 v)) (by omega)
+    · by_cases c3 : cp < 0x10000
+      · simp only [if_neg c1, if_neg c2, if_pos c3, List.length_cons, List.length_nil]
+        rw [nextUtf8_3 _ _ _ (by omega) (by omega) (by omega)]
+        exact congrArg (fun v => some (Tickit.RB.Utf8.Dec.mk 3 v)) (by omega)
+      · simp only [if_neg c1, if_neg c2, if_neg c3, List.length_cons, List.length_nil]
+        rw [nextUtf8_4 _ _ _ _ (by omega) (by omega) (by omega) (by omega)]
+        exact congrArg (fun v => some (Tickit.RB.Utf8.Dec.mk 4 v)) (by omega)
+
+/-! ### The screen reads the UTF-8 form of a printable code point back as that code point -/
+
+/-- A code point a CHAR cell or a text may hold and a terminal shows: not a C0/C1 control or DEL, a Unicode scalar
+    position up to U+10FFFF. -/
+def Printable (cp : Nat) : Prop := 0x20 ≤ cp ∧ ¬ (0x7f ≤ cp ∧ cp < 0xa0) ∧ cp < 0x110000
+instance (cp : Nat) : Decidable (Printable cp) := by unfold Printable; exact inferInstance
+
+namespace XScreen
+
+theorem set_ps_ground (s : XScreen) (p : VT.PState) (hg : s.ps = .ground) :
+    ({ ({ s with ps := p } : XScreen) with ps := .ground } : XScreen) = s := by
+  cases s; simp_all
+
+theorem step_ascii (s : XScreen) (hg : s.ps = .ground) (x : Nat) (h1 : 0x20 ≤ x) (h2 : x < 0x7f) :
+    s.step (UInt8.ofNat x) = s.putCp x := by
+  have hn : (UInt8.ofNat x).toNat = x := toNat_ofNat_lt x (by omega)
+  simp only [step, hg, groundByte, hn]
+  repeat' split
+  all_goals first | (exfalso; omega) | rfl
+
+theorem step_lead2 (s : XScreen) (hg : s.ps = .ground) (x : Nat) (h1 : 0xc2 ≤ x) (h2 : x ≤ 0xdf) :
+    s.step (UInt8.ofNat x) = { s with ps := .utf8 1 (x - 0xc0) } := by
+  have hn : (UInt8.ofNat x).toNat = x := toNat_ofNat_lt x (by omega)
+  simp only [step, hg, groundByte, hn]
+  repeat' split
+  all_goals first | (exfalso; omega) | rfl
+
+theorem step_lead3 (s : XScreen) (hg : s.ps = .ground) (x : Nat) (h1 : 0xe0 ≤ x) (h2 : x ≤ 0xef) :
+    s.step (UInt8.ofNat x) = { s with ps := .utf8 2 (x - 0xe0) } := by
+  have hn : (UInt8.ofNat x).toNat = x := toNat_ofNat_lt x (by omega)
+  simp only [step, hg, groundByte, hn]
+  repeat' split
+  all_goals first | (exfalso; omega) | rfl
+
+theorem step_lead4 (s : XScreen) (hg : s.ps = .ground) (x : Nat) (h1 : 0xf0 ≤ x) (h2 : x ≤ 0xf4) :
+    s.step (UInt8.ofNat x) = { s with ps := .utf8 3 (x - 0xf0) } := by
+  have hn : (UInt8.ofNat x).toNat = x := toNat_ofNat_lt x (by omega)
+  simp only [step, hg, groundByte, hn]
+  repeat' split
+  all_goals first | (exfalso; omega) | rfl
+
+theorem step_cont_mid (s : XScreen) (need acc : Nat) (hp : s.ps = .utf8 need acc) (hn1 : 1 < need) (x : Nat)
+    (h1 : 0x80 ≤ x) (h2 : x ≤ 0xbf) :
+    s.step (UInt8.ofNat x) = { s with ps := .utf8 (need - 1) (acc * 64 + (x - 0x80)) } := by
+  have hn : (UInt8.ofNat x).toNat = x := toNat_ofNat_lt x (by omega)
+  simp only [step, hp, hn]
+  repeat' split
+  all_goals first | (exfalso; omega) | rfl
+
+theorem step_cont_last (s : XScreen) (acc : Nat) (hp : s.ps = .utf8 1 acc) (x : Nat) (h1 : 0x80 ≤ x) (h2 : x ≤ 0xbf) :
+    s.step (UInt8.ofNat x) = ({ s with ps := .ground } : XScreen).putCp (acc * 64 + (x - 0x80)) := by
+  have hn : (UInt8.ofNat x).toNat = x := toNat_ofNat_lt x (by omega)
+  simp only [step, hp, hn]
+  repeat' split
+  all_goals first | (exfalso; omega) | rfl
+
+theorem set_ground (s : XScreen) (hg : s.ps = .ground) : ({ s with ps := .ground } : XScreen) = s := by
+  cases s; simp_all
+
+theorem step_mid (s : XScreen) (need acc x : Nat) (hn1 : 1 < need) (h1 : 0x80 ≤ x) (h2 : x ≤ 0xbf) :
+    ({ s with ps := .utf8 need acc } : XScreen).step (UInt8.ofNat x) =
+      { s with ps := .utf8 (need - 1) (acc * 64 + (x - 0x80)) } :=
+  step_cont_mid _ need acc rfl hn1 x h1 h2
+
+theorem step_last (s : XScreen) (acc x : Nat) (h1 : 0x80 ≤ x) (h2 : x ≤ 0xbf) :
+    ({ s with ps := .utf8 1 acc } : XScreen).step (UInt8.ofNat x) =
+      ({ s with ps := .ground } : XScreen).putCp (acc * 64 + (x - 0x80)) :=
+  step_cont_last _ acc rfl x h1 h2
+
+/-- A VT screen in the ground state that reads the UTF-8 form of a printable code point executes "print that code
+    point": the clause "every character cell appears … as that character" on the terminal's side. -/
+theorem interp_stdUtf8 (s : XScreen) (hg : s.ps = .ground) (cp : Nat) (hp : Printable cp) :
+    s.interp (stdUtf8 cp) = s.putCp cp := by
+  obtain ⟨p1, p2, p3⟩ := hp
+  unfold stdUtf8 interp
+  by_cases c1 : cp < 0x80
+  · rw [if_pos c1]
+    simp only [List.foldl_cons, List.foldl_nil]
+    exact step_ascii s hg cp p1 (by omega)
+  · rw [if_neg c1]
+    by_cases c2 : cp < 0x800
+    · rw [if_pos c2]
+      simp only [List.foldl_cons, List.foldl_nil]
+      rw [step_lead2 s hg _ (by omega) (by omega)]
+      rw [step_last s _ _ (by omega) (by omega), set_ground s hg]
+      exact congrArg (XScreen.putCp s) (by omega)
+    · rw [if_neg c2]
+      by_cases c3 : cp < 0x10000
+      · rw [if_pos c3]
+        simp only [List.foldl_cons, List.foldl_nil]
+        rw [step_lead3 s hg _ (by omega) (by omega)]
+        rw [step_mid s _ _ _ (by omega) (by omega) (by omega)]
+        rw [step_last s _ _ (by omega) (by omega), set_ground s hg]
+        exact congrArg (XScreen.putCp s) (by omega)
+      · rw [if_neg c3]
+        simp only [List.foldl_cons, List.foldl_nil]
+        rw [step_lead4 s hg _ (by omega) (by omega)]
+        rw [step_mid s _ _ _ (by omega) (by omega) (by omega)]
+        rw [step_mid s _ _ _ (by omega) (by omega) (by omega)]
+        rw [step_last s _ _ (by omega) (by omega), set_ground s hg]
+        exact congrArg (XScreen.putCp s) (by omega)
+
+end XScreen
+
+/-! ### Vocabulary of the statement about the end result (Props/C04.lean, `C04_xterm_screen`) -/
+
+/-- A pen the xterm driver can say in SGR on a terminal with capabilities `caps`: palette colours, no
+    `TICKIT_PEN_SIZEPOS_SMALL`, underline styles beyond double only with `:` sub-parameters (the negations are C10's
+    known findings `sizepos_small` and `under_curly_no_colon`). -/
+def PenEncodable (caps : TermPen.Caps) (p : Pen) : Prop :=
+  -1 ≤ Pen.getColour p.fg ∧ Pen.getColour p.fg < 256 ∧ -1 ≤ Pen.getColour p.bg ∧ Pen.getColour p.bg < 256 ∧
+  0 ≤ Pen.getInt p.under ∧ (caps.colon = false → Pen.getInt p.under ≤ 2) ∧
+  0 ≤ Pen.getInt p.sizepos ∧ Pen.getInt p.sizepos ≤ 3 ∧ Pen.getInt p.sizepos ≠ Tickit.Gen.Sgr.sizeposSmall
+
+/-- Every attribute is present (what `tt->pen` is after any `tickit_term_setpen`). -/
+def PenTotal (p : Pen) : Prop :=
+  p.fg.isSome ∧ p.bg.isSome ∧ p.bold.isSome ∧ p.under.isSome ∧ p.italic.isSome ∧ p.reverse.isSome ∧ p.strike.isSome ∧
+  p.altfont.isSome ∧ p.blink.isSome ∧ p.sizepos.isSome
+
+/-- Every text of the buffer is well-formed UTF-8 of printable code points (`next_utf8` also accepts sequences a
+    terminal does not: C07's known finding `lax_continuation`). -/
+def TextsStrict (rb : RB) : Prop :=
+  ∀ l c, (rb.cell l c).state = .text →
+    ∃ cps : List Nat, (∀ cp ∈ cps, Printable cp) ∧ (rb.cell l c).text = cps.flatMap stdUtf8
+
+/-- Every CHAR cell holds a printable code point. -/
+def CharsPrintable (rb : RB) : Prop := ∀ l c, (rb.cell l c).state = .char → Printable (rb.cell l c).cp.toNat
 
 end Tickit.RBFlushX
